@@ -62,6 +62,11 @@ pub struct Case {
     /// which are not entries: the negation may or may not discard the tree they sit in)
     #[serde(default)]
     pub follow: bool,
+    /// the underlying glob and every alternative of the negation that does not begin with a tree
+    /// wildcard are spelled with the absolute path of the tree in front (the walk of a rooted glob
+    /// has an empty root segment: its entries' relative paths are absolute)
+    #[serde(default)]
+    pub rooted: bool,
 }
 
 /// one item of a walk together with the root-relative candidate text of Ok entries
@@ -260,7 +265,7 @@ impl Property for C03 {
         320
     }
     fn required_counters(&self) -> Vec<&'static str> {
-        vec!["walks", "under_path", "under_glob", "neg_any", "neg_empty", "tree_discarded", "partially_matched_directory", "with_max_depth", "partition_pairs_checked", "negation_matches_directory_link", "read_target_walks", "negation_matches_non_utf8_name"]
+        vec!["walks", "under_path", "under_glob", "neg_any", "neg_empty", "tree_discarded", "partially_matched_directory", "with_max_depth", "partition_pairs_checked", "negation_matches_directory_link", "read_target_walks", "negation_matches_non_utf8_name", "rooted_negation_matches_under_rooted_walk"]
     }
     fn decode(&self, t: &mut Tape) -> Case {
         // symbolic links (to files and directories) in a third of the trees: under the default
@@ -297,7 +302,8 @@ impl Property for C03 {
         let neg = gen_neg(t, &tree);
         let max_depth = if t.chance(50) { Some(t.below(4)) } else { None };
         let follow = links && t.chance(90);
-        Case { tree, base, under, neg, max_depth, follow }
+        let rooted = matches!(under, Under::Glob { .. }) && t.chance(45);
+        Case { tree, base, under, neg, max_depth, follow, rooted }
     }
     fn directed(&self) -> Vec<Case> {
         let d = |p: &str| Node { path: p.into(), kind: Kind::Dir, unreadable: false };
@@ -311,6 +317,7 @@ impl Property for C03 {
                 neg: Neg::Text(vec![Tok::Tree { lead: false, trail: true }, Tok::Alt(vec![vec![Tok::lit("a")]])]),
                 max_depth: None,
                 follow: false,
+                rooted: false,
             },
             Case {
                 tree,
@@ -319,6 +326,7 @@ impl Property for C03 {
                 neg: Neg::Text(vec![Tok::Rep { body: vec![Tok::Zom { lazy: false }, Tok::Sep], lo: 0, hi: None, spell: 1 }]),
                 max_depth: None,
                 follow: false,
+                rooted: false,
             },
         ]
     }
@@ -360,6 +368,41 @@ impl Property for C03 {
         out
     }
     fn check(&self, case: &Case, st: &mut Stats) -> CheckResult {
+        let s = match Scratch::create(&case.tree) {
+            Ok(s) => s,
+            Err(_) => {
+                st.count("scratch_failed");
+                return Ok(());
+            },
+        };
+        let root_abs = s.root.to_string_lossy().to_string();
+        let rooted_case;
+        let case = if case.rooted {
+            let pre = |e: &Expr| -> Expr {
+                match strip_flags(e).first() {
+                    Some(Tok::Tree { .. }) | None => e.clone(),
+                    _ if starts_rooting_expr(&strip_flags(e)) => e.clone(),
+                    _ => crate::props::c02::join_prefix(&root_abs, 0, e),
+                }
+            };
+            let neg = match &case.neg {
+                Neg::Text(e) => Neg::Text(pre(e)),
+                Neg::Compiled(e) => Neg::Compiled(pre(e)),
+                Neg::AnyText(v) => Neg::AnyText(v.iter().map(pre).collect()),
+                Neg::AnyCompiled(v) => Neg::AnyCompiled(v.iter().map(pre).collect()),
+                Neg::AnyNested(v) => Neg::AnyNested(v.iter().map(pre).collect()),
+                Neg::Empty => Neg::Empty,
+            };
+            let under = match &case.under {
+                Under::Glob { glob, .. } => Under::Glob { shape: Shape::Rooted, glob: glob.clone() },
+                u => u.clone(),
+            };
+            rooted_case = Case { neg, under, max_depth: None, ..case.clone() };
+            &rooted_case
+        }
+        else {
+            case
+        };
         // the negation must build (as a pattern for is_match)
         let nexprs = case.neg.exprs();
         let (ntext, npat) = match build_pat(&nexprs) {
@@ -370,13 +413,6 @@ impl Property for C03 {
             },
             Err(_) => {
                 st.panicked += 1;
-                return Ok(());
-            },
-        };
-        let s = match Scratch::create(&case.tree) {
-            Ok(s) => s,
-            Err(_) => {
-                st.count("scratch_failed");
                 return Ok(());
             },
         };
@@ -402,8 +438,8 @@ impl Property for C03 {
                     Ok(Some((plain, negated, "Path::walk".to_string())))
                 },
                 Under::Glob { shape, glob } => {
-                    let expr = full_glob(shape, glob, "");
-                    if starts_rooting_expr(&strip_flags(&expr)) || has_sep_class(&expr) {
+                    let expr = full_glob(shape, glob, &root_abs);
+                    if (*shape != Shape::Rooted && starts_rooting_expr(&strip_flags(&expr))) || has_sep_class(&expr) || (*shape == Shape::Rooted && starts_rooting_expr(&strip_flags(glob))) {
                         return Ok(None);
                     }
                     let text = render_text(&expr);
@@ -437,6 +473,9 @@ impl Property for C03 {
         match &case.under {
             Under::Path => st.count("under_path"),
             _ => st.count("under_glob"),
+        }
+        if case.rooted && nexprs.iter().any(|e| starts_rooting_expr(&strip_flags(e))) && plain.iter().any(|it| it.rel.as_ref().map_or(false, |r| npat.is_match(r.as_str()))) {
+            st.count("rooted_negation_matches_under_rooted_walk");
         }
         match &case.neg {
             Neg::Empty => st.count("neg_empty"),
